@@ -20,7 +20,7 @@ func init() {
 			"R1: the character set at which findShortcut splits contains every character to which the pattern compiler gives a non-literal meaning. R2: the shortcut is computed after the last rewrite of the pattern field and only the constructor writes that field. " +
 			"R3: the stored shortcut is strings.ToLower of a piece of the pattern on every path, it is derived from the rule's own pattern, and the pre-check tests the lower-cased URL field. R4: the regex heuristic bails out on '?', " +
 			"its splitter class contains every RE2 metacharacter, and R5: its bracket-stripping expressions are greedy (a lazy match leaves the alternation of a nested group exposed as if it were mandatory text).",
-		Trusted: []string{"regexp/syntax parses the constant expressions the way regexp.MustCompile does"},
+		Trusted:     []string{"regexp/syntax parses the constant expressions the way regexp.MustCompile does"},
 		Assumptions: []string{"for regular-expression rules, 'pattern accepts u => lower(u) contains the shortcut' is a language inclusion per rule and is outside static reach (DESIGN.md section 6); two unsound shapes on today's tree (top-level alternation, class escapes) are known and not reported by any rule here"},
 	})
 }
